@@ -71,6 +71,11 @@ claimed = {
   text="rapid generates modules of 2-8 packages in an import DAG with multi-file packages, dependency-reordered package-level initialisers (direct, through functions, across packages, in closures), several init functions per file, blank imports and packages reachable along several paths; a quarter also initialise through overlaid std packages. The trace of the llgo-built program (O0, O2; thorough adds Oz, O2+nogc) must equal gc's. Exploration only.",
   note="gc defines the order; build mode exe only; the relative order of packages that do not depend on one another is a listed finding and is compared per package in that case.",
   design="§3 C12"),
+ "C08": dict(
+  technique="property-based testing (rapid): three-way agreement of layout computations over generated go/types types on six targets",
+  text="rapid builds types from a recursive grammar and, for linux/amd64, arm64, riscv64, 386, arm and wasip1/wasm, compares the numbers that fold unsafe.Sizeof/Alignof/Offsetof, the LLVM data layout generated code uses, and what the descriptor builder records. Exploration only; in-process (no code of the 32-bit targets is executed).",
+  note="Three classes of disagreement are genuine findings listed in known_findings.json (64-bit scalars on 32-bit targets, trailing zero-size fields, wasm nested structs) and are keyed separately; host-C-compiler agreement is not yet part of this check.",
+  design="§3 C08"),
 }
 not_yet = "check not built yet in this session (see DESIGN.md §3 for the planned generated-input check)"
 
